@@ -11,8 +11,21 @@ package rest
 //	bind                                    => ok|badmethod|badpath|dup|err:<..>   (engine.bindRoutes: first error)
 //	req m=<method> p=<path> n=<repeats>     => clean=<path.Clean(p)> <outcome> [| <outcome>]…
 //
-// outcome: h=<id> vars=<k=v,…> | nf=<id> code=<c> | na=<id> code=<c> [allow=<hdr>] | 405 allow=<…> | 404
+// outcome: h=<id> vars=<k=v,…> [mw=<i.j…>] | nf=<id> code=<c> | na=<id> code=<c> [allow=<hdr>] | 405 allow=<…> | 404 | 401
 // A custom handler whose id is in [400,599] writes that status code, any other writes nothing.
+//
+// Round 4 — route tables built through the PUBLIC API in all its forms (sections with api=1):
+//
+//	slice s=<k> r=<m>,<path>,<id>…            => ok      a []Route value owned by the caller, kept under the name k
+//	add s=<k> [o=<opt>]…                      => routes=<m~path,…> slices=<k>=<m~path,…>;…
+//	addone r=<m>,<path>,<id> [o=<opt>]…       => routes=… slices=…        (Server.AddRoute)
+//	   Server.AddRoutes(slice k, options in the given order); the SAME slice may be added any number of times.
+//	   <opt>: pfx=<group> (WithPrefix; several = nested, the later one is the outer one) | jwt=<secret> |
+//	          jwtt=<secret>,<prev> (WithJwtTransition) | to=<ms> (WithTimeout) | mb=<n> (WithMaxBytes) | prio | sse |
+//	          mw=<n> (the slice goes through rest.WithMiddlewares(n middlewares, rs...) first: a fresh slice)
+//	   routes= everything Server.Routes() reports after the call (ALL groups: an earlier group must not change),
+//	   slices= every caller slice as it reads after the call (the caller's routes must not change).
+//	req … [auth=<secret>]                      a JWT signed with <secret> in the Authorization header
 
 import (
 	"errors"
@@ -24,7 +37,9 @@ import (
 	"sort"
 	"strings"
 	"testing"
+	"time"
 
+	"github.com/golang-jwt/jwt/v4"
 	"github.com/zeromicro/go-zero/core/logx"
 	"github.com/zeromicro/go-zero/internal/verifh"
 	"github.com/zeromicro/go-zero/rest/pathvar"
@@ -293,11 +308,215 @@ func (g *c09SrvGen) section() verifh.Section {
 	return verifh.Section{Cfg: fmt.Sprintf("kind=server mode=%d mw=%d", mode, mw), Ops: ops}
 }
 
+// sectionAPI: route tables built through the public API in all its forms: caller-owned slices that are added
+// several times (bare and under one or several, possibly nested, prefixes), AddRoute, WithJwt / WithJwtTransition /
+// WithTimeout / WithMaxBytes / WithPriority / WithSSE, rest.WithMiddlewares.  Requests then probe every mounted
+// copy, the unmounted path of a slice that was only added under a prefix, and the doubly prefixed path.
+func (g *c09SrvGen) sectionAPI() verifh.Section {
+	r := g.r
+	var ops []string
+	for i, n := 0, r.Pick(0, 0, 1, 2); i < n; i++ {
+		switch r.Intn(4) {
+		case 0:
+			ops = append(ops, "opt nf="+r.PickS("701", "410", "nil"))
+		default:
+			ops = append(ops, "opt na="+r.PickS("801", "418", "nil"))
+		}
+	}
+	names := []string{"x", "y", "z", "w", "v", "u", "t"}
+	type rt struct {
+		m    string
+		toks []string
+	}
+	id := 0
+	mkRoutes := func(n int) ([]rt, string) {
+		var rs []rt
+		var txt []string
+		for j := 0; j < n; j++ {
+			id++
+			m := c09SrvMethods[r.Intn(r.Pick(1, 2, 2, 4))]
+			d := r.Pick(0, 1, 1, 2, 2, 3)
+			var toks []string
+			for i := 0; i < d; i++ {
+				if r.Chance(1, 3) {
+					toks = append(toks, ":"+names[i]) // named by the depth inside the slice
+				} else {
+					toks = append(toks, r.PickS("a", "b", "c", "Ab"))
+				}
+			}
+			p := c09Render(toks)
+			switch x := r.Intn(100); {
+			case x < 8 && len(toks) > 0:
+				p += "/"
+			case x < 14 && len(toks) > 0:
+				p = p[1:] // relative: valid only below a prefix
+			case x < 17:
+				p = strings.Replace(p, "/", "/./", 1)
+			case x < 19:
+				p = "/.." + p // leaves the (innermost) group
+			}
+			rs = append(rs, rt{m, toks})
+			txt = append(txt, fmt.Sprintf("r=%s,%s,%d", m, p, id))
+		}
+		return rs, strings.Join(txt, " ")
+	}
+	nslices := r.Pick(1, 1, 2, 2, 3)
+	slices := make([][]rt, nslices)
+	for k := 0; k < nslices; k++ {
+		var txt string
+		slices[k], txt = mkRoutes(r.Pick(1, 2, 2, 3, 4))
+		ops = append(ops, fmt.Sprintf("slice s=%d %s", k, txt))
+	}
+	type mount struct {
+		m      string
+		toks   []string
+		secret string
+	}
+	var mounts []mount
+	var secrets []string
+	pfxTok := func() string {
+		if r.Chance(1, 10) {
+			return ":g"
+		}
+		return r.PickS("api", "v1", "v2", "API")
+	}
+	nadds := r.Pick(2, 2, 3, 3, 4, 5)
+	for a := 0; a < nadds; a++ {
+		var opts []string
+		var ptoks []string
+		npfx := r.Pick(0, 1, 1, 1, 2, 2, 3)
+		var pf [][]string
+		for i := 0; i < npfx; i++ {
+			one := []string{pfxTok()}
+			if r.Chance(1, 4) {
+				one = append(one, pfxTok())
+			}
+			pf = append(pf, one)
+		}
+		secret := ""
+		addOpt := func() {
+			switch x := r.Intn(100); {
+			case x < 14:
+				secret = r.PickS("secret-aaaa", "secret-bbbb")
+				if r.Chance(1, 4) {
+					prev := r.PickS("secret-cccc", "secret-bbbb")
+					opts = append(opts, "o=jwtt="+secret+","+prev)
+					secrets = append(secrets, prev)
+				} else {
+					opts = append(opts, "o=jwt="+secret)
+				}
+				secrets = append(secrets, secret)
+			case x < 22:
+				opts = append(opts, "o=to="+r.PickS("0", "1500", "60000"))
+			case x < 28:
+				opts = append(opts, "o=mb="+r.PickS("0", "16", "4096"))
+			case x < 34:
+				opts = append(opts, "o=prio")
+			case x < 40:
+				opts = append(opts, "o=sse")
+			case x < 50:
+				opts = append(opts, "o=mw="+r.PickS("1", "2", "3"))
+			}
+		}
+		addOpt()
+		for i := 0; i < npfx; i++ {
+			p := c09Render(pf[i])
+			switch x := r.Intn(100); {
+			case x < 8:
+				p += "/"
+			case x < 12:
+				p = strings.Replace(p, "/", "//", 1)
+			case x < 15:
+				p = "/q/.." + p
+			}
+			opts = append(opts, "o=pfx="+p)
+			ptoks = append(append([]string{}, pf[i]...), ptoks...) // the later prefix is the outer one
+			addOpt()
+		}
+		if r.Chance(1, 30) {
+			opts = append(opts, "o=pfx=") // empty group: path.Join("", p)
+		}
+		if r.Chance(1, 5) {
+			one, txt := mkRoutes(1)
+			ops = append(ops, fmt.Sprintf("addone %s %s", txt, strings.Join(opts, " ")))
+			mounts = append(mounts, mount{one[0].m, append(append([]string{}, ptoks...), one[0].toks...), secret})
+			continue
+		}
+		// favour re-using a slice that was added before
+		k := r.Intn(nslices)
+		if a > 0 && r.Chance(1, 2) {
+			k = 0
+		}
+		ops = append(ops, strings.TrimSpace(fmt.Sprintf("add s=%d %s", k, strings.Join(opts, " "))))
+		for _, x := range slices[k] {
+			mounts = append(mounts, mount{x.m, append(append([]string{}, ptoks...), x.toks...), secret})
+		}
+	}
+	ops = append(ops, "bind")
+	tok := func() string { return r.PickS("a", "b", "c", "d", "Ab", "api", "v1") }
+	nreq := r.Range(6, verifh.Scale(18, 30))
+	for i := 0; i < nreq; i++ {
+		q := mounts[r.Intn(len(mounts))]
+		m := q.m
+		var toks []string
+		for _, t := range q.toks {
+			if strings.HasPrefix(t, ":") {
+				toks = append(toks, tok())
+			} else {
+				toks = append(toks, t)
+			}
+		}
+		switch x := r.Intn(100); {
+		case x < 12 && len(toks) > 0:
+			toks = toks[1:] // without the outermost group segment (the route as the slice spells it)
+		case x < 22:
+			toks = append([]string{r.PickS("api", "v1", "v2")}, toks...) // one more group segment in front
+		case x < 30 && len(toks) > 0:
+			toks[r.Intn(len(toks))] = tok()
+		case x < 35:
+			toks = append(toks, tok())
+		case x < 38:
+			toks = nil
+		}
+		if r.Chance(1, 5) {
+			m = c09SrvMethods[r.Intn(len(c09SrvMethods))]
+		}
+		p := c09Render(toks)
+		switch x := r.Intn(100); {
+		case x < 10 && len(toks) > 0:
+			p += "/"
+		case x < 15:
+			p = strings.Replace(p, "/", "//", 1)
+		case x < 18:
+			p += "/q/.."
+		}
+		op := fmt.Sprintf("req m=%s p=%s n=2", m, p)
+		switch x := r.Intn(100); {
+		case x < 45 && q.secret != "":
+			op += " auth=" + q.secret
+		case x < 60 && len(secrets) > 0:
+			op += " auth=" + secrets[r.Intn(len(secrets))]
+		case x < 68:
+			op += " auth=secret-zzzz"
+		}
+		ops = append(ops, op)
+	}
+	mw := 0
+	if r.Chance(1, 4) {
+		mw = 1
+	}
+	return verifh.Section{Cfg: fmt.Sprintf("kind=server mode=0 mw=%d api=1", mw), Ops: ops}
+}
+
 func c09SrvGenAll(r *verifh.Rng) []verifh.Section {
 	g := &c09SrvGen{r: r}
 	var secs []verifh.Section
 	for i, n := 0, verifh.Scale(150, 2500); i < n; i++ {
-		secs = append(secs, g.section())
+		if i%2 == 1 {
+			secs = append(secs, g.sectionAPI())
+		} else {
+			secs = append(secs, g.section())
+		}
 	}
 	return secs
 }
@@ -317,6 +536,14 @@ type c09SrvHit struct {
 	vars map[string]string
 }
 
+func c09SrvListing(rs []Route) string {
+	var out []string
+	for _, rt := range rs {
+		out = append(out, rt.Method+"~"+rt.Path)
+	}
+	return strings.Join(out, ",")
+}
+
 func TestVerifC09Server(t *testing.T) {
 	logx.Disable()
 	secs := verifh.Sections(c09SrvGenAll)
@@ -332,6 +559,73 @@ func TestVerifC09Server(t *testing.T) {
 		}
 		var opts []RunOption
 		var srv *Server
+		var trail []string
+		slices := map[string][]Route{}
+		var sliceOrder []string
+		mkRoute := func(t string) (Route, bool) {
+			f := strings.Split(t, ",")
+			if len(f) != 3 {
+				return Route{}, false
+			}
+			id := verifh.Atoi(f[2])
+			return Route{Method: f[0], Path: f[1], Handler: func(w http.ResponseWriter, r *http.Request) {
+				hits = append(hits, c09SrvHit{"h", id, pathvar.Vars(r)})
+			}}, true
+		}
+		// route options of an add / addone op, in the order written; mw=<n> asks for rest.WithMiddlewares
+		routeOpts := func(op []string) (ros []RouteOption, nmw int, ok bool) {
+			for _, t := range op[1:] {
+				if !strings.HasPrefix(t, "o=") {
+					continue
+				}
+				o := t[2:]
+				switch {
+				case strings.HasPrefix(o, "pfx="):
+					ros = append(ros, WithPrefix(o[4:]))
+				case strings.HasPrefix(o, "jwtt="):
+					f := strings.Split(o[5:], ",")
+					if len(f) != 2 {
+						return nil, 0, false
+					}
+					ros = append(ros, WithJwtTransition(f[0], f[1]))
+				case strings.HasPrefix(o, "jwt="):
+					ros = append(ros, WithJwt(o[4:]))
+				case strings.HasPrefix(o, "to="):
+					ros = append(ros, WithTimeout(time.Duration(verifh.Atoi(o[3:]))*time.Millisecond))
+				case strings.HasPrefix(o, "mb="):
+					ros = append(ros, WithMaxBytes(int64(verifh.Atoi(o[3:]))))
+				case o == "prio":
+					ros = append(ros, WithPriority())
+				case o == "sse":
+					ros = append(ros, WithSSE())
+				case strings.HasPrefix(o, "mw="):
+					nmw = verifh.Atoi(o[3:])
+				default:
+					return nil, 0, false
+				}
+			}
+			return ros, nmw, true
+		}
+		middlewares := func(n int) []Middleware {
+			var ms []Middleware
+			for i := 1; i <= n; i++ {
+				i := i
+				ms = append(ms, func(next http.HandlerFunc) http.HandlerFunc {
+					return func(w http.ResponseWriter, r *http.Request) {
+						trail = append(trail, fmt.Sprint(i))
+						next(w, r)
+					}
+				})
+			}
+			return ms
+		}
+		listing := func() string {
+			var sl []string
+			for _, k := range sliceOrder {
+				sl = append(sl, k+"="+c09SrvListing(slices[k]))
+			}
+			return "routes=" + c09SrvListing(srv.Routes()) + " slices=" + strings.Join(sl, ";")
+		}
 		build := func() {
 			if srv == nil {
 				var err error
@@ -400,6 +694,59 @@ func TestVerifC09Server(t *testing.T) {
 					ps = append(ps, rt.Path)
 				}
 				return "paths=" + strings.Join(ps, ",")
+			case "slice":
+				k, ok := c09SrvArg(op, "s=")
+				if !ok {
+					return "bad-op"
+				}
+				var rs []Route
+				for _, t := range op[1:] {
+					if strings.HasPrefix(t, "r=") {
+						rt, ok := mkRoute(t[2:])
+						if !ok {
+							return "bad-op"
+						}
+						rs = append(rs, rt)
+					}
+				}
+				if _, dup := slices[k]; dup || len(rs) == 0 {
+					return "bad-op"
+				}
+				slices[k] = rs
+				sliceOrder = append(sliceOrder, k)
+				return "ok"
+			case "add":
+				build()
+				k, _ := c09SrvArg(op, "s=")
+				rs, ok := slices[k]
+				ros, nmw, ok2 := routeOpts(op)
+				if !ok || !ok2 {
+					return "bad-op"
+				}
+				if nmw > 0 {
+					rs = WithMiddlewares(middlewares(nmw), rs...)
+				}
+				srv.AddRoutes(rs, ros...)
+				return listing()
+			case "addone":
+				build()
+				var one *Route
+				for _, t := range op[1:] {
+					if strings.HasPrefix(t, "r=") {
+						if rt, ok := mkRoute(t[2:]); ok {
+							one = &rt
+						}
+					}
+				}
+				ros, nmw, ok2 := routeOpts(op)
+				if one == nil || !ok2 {
+					return "bad-op"
+				}
+				if nmw > 0 {
+					*one = WithMiddlewares(middlewares(nmw), *one)[0]
+				}
+				srv.AddRoute(*one, ros...)
+				return listing()
 			case "bind":
 				build()
 				err := srv.ngin.bindRoutes(srv.router)
@@ -424,13 +771,25 @@ func TestVerifC09Server(t *testing.T) {
 				p, _ := c09SrvArg(op, "p=")
 				ns, _ := c09SrvArg(op, "n=")
 				n := verifh.Atoi(ns)
+				bearer := ""
+				if secret, ok := c09SrvArg(op, "auth="); ok {
+					tok, err := jwt.NewWithClaims(jwt.SigningMethodHS256, jwt.MapClaims{"uid": 7}).SignedString([]byte(secret))
+					if err != nil {
+						return "bad-op"
+					}
+					bearer = "Bearer " + tok
+				}
 				seen := map[string]bool{}
 				for i := 0; i < n; i++ {
 					req := httptest.NewRequest(http.MethodGet, "/", nil)
 					req.Method = m
 					req.URL = &url.URL{Path: p}
+					if bearer != "" {
+						req.Header.Set("Authorization", bearer)
+					}
 					rec := httptest.NewRecorder()
 					hits = hits[:0]
+					trail = trail[:0]
 					srv.router.ServeHTTP(rec, req)
 					var o string
 					switch {
@@ -443,9 +802,14 @@ func TestVerifC09Server(t *testing.T) {
 						}
 						sort.Strings(kv)
 						o = fmt.Sprintf("h=%d vars=%s", hits[0].id, strings.Join(kv, ","))
+						if len(trail) > 0 {
+							o += " mw=" + strings.Join(trail, ".")
+						}
 						if rec.Code != 200 {
 							o += fmt.Sprintf(" code=%d", rec.Code)
 						}
+					case len(trail) > 0:
+						o = "middleware-without-handler=" + strings.Join(trail, ".")
 					case len(hits) == 1:
 						o = fmt.Sprintf("%s=%d code=%d", hits[0].kind, hits[0].id, rec.Code)
 						if a := rec.Header().Get("Allow"); a != "" {
@@ -460,6 +824,8 @@ func TestVerifC09Server(t *testing.T) {
 						if a := rec.Header().Get("Allow"); a != "" {
 							o += " allow=" + strings.ReplaceAll(a, " ", "")
 						}
+					case rec.Code == http.StatusUnauthorized:
+						o = "401"
 					default:
 						o = fmt.Sprintf("code=%d", rec.Code)
 					}
